@@ -104,16 +104,27 @@ def run(ctx, replay):
                         behaviours.append(dict(history=[h1, h2], probe=p))
         # 4. seeded random long histories over the whole record space (8 severities x 8 shapes x 3 formats)
         rng = random.Random(ctx.seed * 104729 + 3)
-        NSHAPES = 16
-        space = [f * 1000 + s * 100 + sh for f in range(3) for s in range(8) for sh in range(NSHAPES)]
+        NSHAPES, NSEV = 16, 10
+        PADDED = list(range(16, 80))      # records padded to every position around the capacity of a fresh buffer
+        space = [f * 1000 + s * 100 + sh for f in range(3) for s in range(NSEV) for sh in list(range(NSHAPES)) + PADDED[::4]]
         probes = [x for x in space if x % 100 != 12]          # a probe whose own value panics has no output to compare
         # every special shape once directly in front of probes of every format
         for sh in range(NSHAPES):
             for f in range(3):
-                h = f * 1000 + rng.randrange(8) * 100 + sh
+                h = f * 1000 + rng.randrange(NSEV) * 100 + sh
                 for pf in range(3):
                     for psh in (0, 2, 13, 1):
                         behaviours.append(dict(history=[h], probe=pf * 1000 + rng.choice((0, 4, 5, 6)) * 100 + psh))
+        # every severity (incl. two unregistered values congruent to Error and Info modulo 256) directly in front
+        # of every severity, per format
+        for f in range(3):
+            for s1 in range(NSEV):
+                for s2 in range(NSEV):
+                    behaviours.append(dict(history=[f * 1000 + s1 * 100], probe=f * 1000 + s2 * 100))
+        # the padded records as probes on a buffer grown by a 100 KiB record (the reference runs on a fresh 1 KiB one)
+        for f in range(3):
+            for sh in (PADDED[::2] if quick else PADDED):
+                behaviours.append(dict(history=[rng.randrange(3) * 1000 + 10], probe=f * 1000 + sh))
         for _ in range(300 if quick else 6000):
             n = rng.randint(1, 12)
             behaviours.append(dict(history=[rng.choice(space) for _ in range(n)], probe=rng.choice(probes)))
@@ -134,11 +145,28 @@ def run(ctx, replay):
             json.dump(mine, fh)
         ctx.run_worker(["pool-baseline", pp, bp], testing=True, timeout=600)
         with open(bp) as fh:
-            merged.update(json.load(fh))
+            base = json.load(fh)
+        merged.update(base)
+        # the reference itself must not depend on the order in which the reference process formats the probes
+        # (a package-level cache keyed too coarsely would make it do so): a second process, reverse order
+        pp2, bp2 = os.path.join(ctx.scratch, "probes%dr.json" % f), os.path.join(ctx.scratch, "base%dr.json" % f)
+        with open(pp2, "w") as fh:
+            json.dump(mine[::-1], fh)
+        ctx.run_worker(["pool-baseline", pp2, bp2], testing=True, timeout=600)
+        with open(bp2) as fh:
+            base2 = json.load(fh)
+        for p in mine:
+            if base[str(p)] != base2[str(p)]:
+                ctx.finding("probe:fmt%d:sev%d" % (p // 1000, (p // 100) % 10),
+                            "probe %d formatted in a process that formatted the other probes of its format in ascending order gives %r, in "
+                            "descending order %r" % (p, bytes(base[str(p)])[:300], bytes(base2[str(p)])[:300]),
+                            dict(kind="history", behaviour=dict(history=[q for q in mine if q < p][-40:], probe=p)))
+                ctx.evaluations += 1
+                break
     bl = os.path.join(ctx.scratch, "baselines.json")
     with open(bl, "w") as fh:
         json.dump(merged, fh)
-    ctx.extra["baseline_processes"] = 3
+    ctx.extra["baseline_processes"] = 6
     ctx.run_worker(["pool-history", sp, tp, bl], testing=True, timeout=1200)
     rows = read_ndjson(tp)
     if len(rows) != len(behaviours):
